@@ -83,8 +83,10 @@ UNITS = [
            args={}, timeout_s=900),
     Native("traversal of the generated types.py over nested lists", ["C29"], "native.c29:bounded", kind="examples",
            bound="one meta-model with properties C, List[C], List[List[C]], Optional[List[List[List[C]]]], Optional[C] "
+                 "and optional lists of str / int / bool / float / bytearray / classes / enumeration literals "
                  "(types.py only, through verify_for_types + generate_types, because the complete Python target asserts "
-                 "on nested lists): descend_once order, descend pre-order, PassThroughVisitor on one nested instance",
+                 "on nested lists): descend_once order, descend pre-order, PassThroughVisitor on one nested instance; "
+                 "over_<property>_or_empty exists for every optional list and yields the items / nothing",
            args={}, timeout_s=600),
     Native("every small structured flow against its linearization", ["C26"], "native.c26:bounded", kind="bounded",
            bound="every flow of <= 4 (thorough: 5) nodes, nesting <= 3, over Command / Yield / IfTrue / IfFalse (with, "
@@ -136,3 +138,13 @@ UNITS.append(Native(
           "libraries); (path, description) sets of the verification must be equal (message prefix and leading dot of "
           "the path normalised); constants and literal texts equal.  JSON, XML and TypeScript not covered",
     args={}, timeout_s=1200))
+
+# C08, both layouts of one emitted loop (the layout depends on the length of the generated line)
+UNITS.append(Native(
+    "lists of constrained primitives in the generated Python verification (both layouts of the loop)", ["C08"],
+    "native.c08x:bounded", kind="examples",
+    bound="one meta-model: two constrained primitives (a short and a 33-letter name; a length and a pattern invariant "
+          "each) x a class with four List[...] properties of it: verification.py must contain the loop in both "
+          "layouts (one line / broken over lines: the loop variable grows with the position of the property); an "
+          "offending value at each of 3 positions of each list (48 instances) + 2 valid ones: verify() must report "
+          "exactly the false invariants, descriptions verbatim, path .prop[i]", args={}, timeout_s=600))
